@@ -90,8 +90,19 @@ def long_dense_lying_case(rng):
     return dict(sequence=seq, constraints=cons, objectives=[], settings=problems.rand_settings(rng), np_seed=rng.randint(0, 10 ** 6))
 
 
+def nearly_frozen_random_search(rng):
+    """all but a few positions frozen, the random search forced (threshold 0) with more mutations per iteration than
+    there are mutable choices in the local problems"""
+    d = problems.rand_small_problem(rng, objectives=False)
+    d["settings"] = dict(d["settings"], randomization_threshold=0, mutations_per_iteration=rng.choice([3, 3, 4]))
+    return d
+
+
 def gen_cases(rng, n):
     for i in range(n):
+        if i % 12 == 1:
+            yield dict(desc=nearly_frozen_random_search(rng), op="resolve")
+            continue
         if i % 12 == 9:
             yield dict(desc=long_dense_lying_case(rng), op="resolve")
             continue
@@ -165,10 +176,10 @@ def search(ctx, budget, hints):
     out = []
     results = getattr(ctx, "_results", [])
     n = oracle(results, out)
-    if budget > 1 or not results:
-        rng = vlib.Rng(ctx.seed + 101)
-        more, _ = solverprops.run_cases(gen_cases(rng, 150 * budget))
-        n += oracle(more, out)
+    # an independent second stream of problems for the oracle alone (no replay): detection must not hinge on one stream
+    rng = vlib.Rng(ctx.seed + 101)
+    more, _ = solverprops.run_cases(gen_cases(rng, 150 * budget))
+    n += oracle(more, out)
     # replay disagreeing cases through the oracle first (they are already in results)
     cex, hist = solverprops.shrink_best(out)
     return dict(counterexamples=cex, evaluations=n, hist=hist,
